@@ -14,7 +14,7 @@ open Graphiq PRow Tab TabSpec Classical
 open Graphiq.Wire (Reg RegType SOp Item Kind G1 runSeq)
 
 /-- every qubit index of the operation is in range (the compiler's assertions) -/
-def _root_.Graphiq.COp.InRange (np n : Nat) : COp → Prop
+def cInRange (np n : Nat) : COp → Prop
   | .gate1 _ q | .pdag q | .measz q _ | .wrap _ q => qIndex np q < n
   | .cnot c t | .cz c t | .ccx c t _ | .ccz c t _ | .mcr c t _ => qIndex np c < n ∧ qIndex np t < n
 
@@ -55,16 +55,16 @@ theorem feasible_of_runP {n : Nat} {t : Tab} {q : Nat} {o : Bool} {l : List Tab.
   cases h
 
 /-- from the shape of one step to the full statement, through `cop_refines` -/
-theorem complete_of_step (np n : Nat) (op : COp) (hwf : op.WF2 np) {t : Tab} (ht : TInv n t) (o : Bool) (g1 : GState)
+theorem complete_of_step (np n : Nat) (op : COp) (hwf : cWF2 np op) {t : Tab} (ht : TInv n t) (o : Bool) (g1 : GState)
     (hrun : runP n (copPrims np op o) (some (gstate t)) = some g1) (s s1 : RunState) (hst : s.t = t)
-    (hstep : stepOp np n .prob s op = some s1) (houts : s1.outs = s.outs ++ (if op.measures then [o] else []))
-    (hcp : op.measures = false → copPrims np op false = copPrims np op o) :
+    (hstep : stepOp np n .prob s op = some s1) (houts : s1.outs = s.outs ++ (if cMeasures op then [o] else []))
+    (hcp : cMeasures op = false → copPrims np op false = copPrims np op o) :
     TInv n s1.t ∧ gstate s1.t = g1 := by
   subst hst
   obtain ⟨ht1, new, hnew, hlen, hr⟩ := cop_refines np n .prob s s1 op hwf ht hstep
   refine ⟨ht1, ?_⟩
-  have hn : new = if op.measures then [o] else [] := List.append_cancel_left (hnew.symm.trans houts)
-  cases hm : op.measures with
+  have hn : new = if cMeasures op then [o] else [] := List.append_cancel_left (hnew.symm.trans houts)
+  cases hm : cMeasures op with
   | false =>
     rw [hm] at hn
     simp only [Bool.false_eq_true, if_false] at hn
@@ -84,19 +84,19 @@ theorem complete_of_step (np n : Nat) (op : COp) (hwf : op.WF2 np) {t : Tab} (ht
     then in probabilistic mode, with the script starting with `pre` (= `[o]` if the measurement is random, else empty),
     the compile step records `o`, consumes exactly `pre`, and ends in a valid tableau `t1` (the same for every rest of
     the script) with the group `g1` -/
-theorem cop_complete (np n : Nat) (op : COp) (hwf : op.WF2 np) (hin : op.InRange np n) {t : Tab} (ht : TInv n t) (o : Bool)
+theorem cop_complete (np n : Nat) (op : COp) (hwf : cWF2 np op) (hin : cInRange np n op) {t : Tab} (ht : TInv n t) (o : Bool)
     (g1 : GState) (hrun : runP n (copPrims np op o) (some (gstate t)) = some g1) :
     ∃ (pre : List Bool) (t1 : Tab), TInv n t1 ∧ gstate t1 = g1 ∧
       ∀ (rest : List Bool) (w : List (Nat × Bool)) (rd os : List Bool), ∃ w' rd',
         stepOp np n .prob ⟨t, w, pre ++ rest, rd, os⟩ op =
-          some ⟨t1, w', rest, rd', os ++ (if op.measures then [o] else [])⟩ := by
+          some ⟨t1, w', rest, rd', os ++ (if cMeasures op then [o] else [])⟩ := by
   cases op with
   | gate1 g q =>
     have hstep : ∀ rest w rd os, stepOp np n .prob ⟨t, w, [] ++ rest, rd, os⟩ (.gate1 g q) =
         some ⟨(gen1 t g (qIndex np q)).norm, w, rest, rd, os ++ []⟩ := by
       intro rest w rd os
       simp only [stepOp, List.nil_append, List.append_nil]; exact if_pos hin
-    obtain ⟨h1, h2⟩ := complete_of_step np n _ hwf ht o g1 hrun _ _ rfl (hstep [] [] [] []) (by simp [COp.measures])
+    obtain ⟨h1, h2⟩ := complete_of_step np n _ hwf ht o g1 hrun _ _ rfl (hstep [] [] [] []) (by simp [cMeasures])
       (fun _ => rfl)
     exact ⟨[], _, h1, h2, fun rest w rd os => ⟨_, _, hstep rest w rd os⟩⟩
   | pdag q =>
@@ -104,7 +104,7 @@ theorem cop_complete (np n : Nat) (op : COp) (hwf : op.WF2 np) (hin : op.InRange
         some ⟨(t.sdgGate (qIndex np q)).norm, w, rest, rd, os ++ []⟩ := by
       intro rest w rd os
       simp only [stepOp, List.nil_append, List.append_nil]; exact if_pos hin
-    obtain ⟨h1, h2⟩ := complete_of_step np n _ hwf ht o g1 hrun _ _ rfl (hstep [] [] [] []) (by simp [COp.measures])
+    obtain ⟨h1, h2⟩ := complete_of_step np n _ hwf ht o g1 hrun _ _ rfl (hstep [] [] [] []) (by simp [cMeasures])
       (fun _ => rfl)
     exact ⟨[], _, h1, h2, fun rest w rd os => ⟨_, _, hstep rest w rd os⟩⟩
   | cnot c tg =>
@@ -112,7 +112,7 @@ theorem cop_complete (np n : Nat) (op : COp) (hwf : op.WF2 np) (hin : op.InRange
         some ⟨(t.cnotGate (qIndex np c) (qIndex np tg)).norm, w, rest, rd, os ++ []⟩ := by
       intro rest w rd os
       simp only [stepOp, List.nil_append, List.append_nil]; exact if_pos hin
-    obtain ⟨h1, h2⟩ := complete_of_step np n _ hwf ht o g1 hrun _ _ rfl (hstep [] [] [] []) (by simp [COp.measures])
+    obtain ⟨h1, h2⟩ := complete_of_step np n _ hwf ht o g1 hrun _ _ rfl (hstep [] [] [] []) (by simp [cMeasures])
       (fun _ => rfl)
     exact ⟨[], _, h1, h2, fun rest w rd os => ⟨_, _, hstep rest w rd os⟩⟩
   | cz c tg =>
@@ -120,7 +120,7 @@ theorem cop_complete (np n : Nat) (op : COp) (hwf : op.WF2 np) (hin : op.InRange
         some ⟨(t.czGate (qIndex np c) (qIndex np tg)).norm, w, rest, rd, os ++ []⟩ := by
       intro rest w rd os
       simp only [stepOp, List.nil_append, List.append_nil]; exact if_pos hin
-    obtain ⟨h1, h2⟩ := complete_of_step np n _ hwf ht o g1 hrun _ _ rfl (hstep [] [] [] []) (by simp [COp.measures])
+    obtain ⟨h1, h2⟩ := complete_of_step np n _ hwf ht o g1 hrun _ _ rfl (hstep [] [] [] []) (by simp [cMeasures])
       (fun _ => rfl)
     exact ⟨[], _, h1, h2, fun rest w rd os => ⟨_, _, hstep rest w rd os⟩⟩
   | wrap gs q =>
@@ -128,7 +128,7 @@ theorem cop_complete (np n : Nat) (op : COp) (hwf : op.WF2 np) (hin : op.InRange
         some ⟨(gs.reverse.foldl (fun t g => gen1 t g (qIndex np q)) t).norm, w, rest, rd, os ++ []⟩ := by
       intro rest w rd os
       simp only [stepOp, List.nil_append, List.append_nil]; exact if_pos hin
-    obtain ⟨h1, h2⟩ := complete_of_step np n _ hwf ht o g1 hrun _ _ rfl (hstep [] [] [] []) (by simp [COp.measures])
+    obtain ⟨h1, h2⟩ := complete_of_step np n _ hwf ht o g1 hrun _ _ rfl (hstep [] [] [] []) (by simp [cMeasures])
       (fun _ => rfl)
     exact ⟨[], _, h1, h2, fun rest w rd os => ⟨_, _, hstep rest w rd os⟩⟩
   | measz q creg =>
@@ -140,8 +140,8 @@ theorem cop_complete (np n : Nat) (op : COp) (hwf : op.WF2 np) (hin : op.InRange
       intro rest w rd os
       simp only [stepOp]
       rw [if_pos (show qIndex np q < n from hin), (measure_prob t w rest rd os ht _ hin o hfe).1]; rfl
-    obtain ⟨h1, h2⟩ := complete_of_step np n _ hwf ht o g1 hrun _ _ rfl (hstep [] [] [] []) (by simp [COp.measures])
-      (fun h => by simp [COp.measures] at h)
+    obtain ⟨h1, h2⟩ := complete_of_step np n _ hwf ht o g1 hrun _ _ rfl (hstep [] [] [] []) (by simp [cMeasures])
+      (fun h => by simp [cMeasures] at h)
     exact ⟨_, _, h1, h2, fun rest w rd os => ⟨_, _, hstep rest w rd os⟩⟩
   | ccx c tg creg =>
     have hfe := feasible_of_runP hin.1 hrun
@@ -153,8 +153,8 @@ theorem cop_complete (np n : Nat) (op : COp) (hwf : op.WF2 np) (hin : op.InRange
       intro rest w rd os
       simp only [stepOp]
       rw [if_pos (show qIndex np c < n ∧ qIndex np tg < n from hin), (measure_prob t w rest rd os ht _ hin.1 o hfe).1]; rfl
-    obtain ⟨h1, h2⟩ := complete_of_step np n _ hwf ht o g1 hrun _ _ rfl (hstep [] [] [] []) (by simp [COp.measures])
-      (fun h => by simp [COp.measures] at h)
+    obtain ⟨h1, h2⟩ := complete_of_step np n _ hwf ht o g1 hrun _ _ rfl (hstep [] [] [] []) (by simp [cMeasures])
+      (fun h => by simp [cMeasures] at h)
     exact ⟨_, _, h1, h2, fun rest w rd os => ⟨_, _, hstep rest w rd os⟩⟩
   | ccz c tg creg =>
     have hfe := feasible_of_runP hin.1 hrun
@@ -166,8 +166,8 @@ theorem cop_complete (np n : Nat) (op : COp) (hwf : op.WF2 np) (hin : op.InRange
       intro rest w rd os
       simp only [stepOp]
       rw [if_pos (show qIndex np c < n ∧ qIndex np tg < n from hin), (measure_prob t w rest rd os ht _ hin.1 o hfe).1]; rfl
-    obtain ⟨h1, h2⟩ := complete_of_step np n _ hwf ht o g1 hrun _ _ rfl (hstep [] [] [] []) (by simp [COp.measures])
-      (fun h => by simp [COp.measures] at h)
+    obtain ⟨h1, h2⟩ := complete_of_step np n _ hwf ht o g1 hrun _ _ rfl (hstep [] [] [] []) (by simp [cMeasures])
+      (fun h => by simp [cMeasures] at h)
     exact ⟨_, _, h1, h2, fun rest w rd os => ⟨_, _, hstep rest w rd os⟩⟩
   | mcr c tg creg =>
     have hfe := feasible_of_runP hin.1 hrun
@@ -198,14 +198,14 @@ theorem cop_complete (np n : Nat) (op : COp) (hwf : op.WF2 np) (hin : op.InRange
       rw [if_pos (show qIndex np c < n ∧ qIndex np tg < n from hin), (measure_prob t w rest rd os ht _ hin.1 o hfe).1, hoff]
       simp only [RunState.condX, RunState.write, RunState.resetQ, RunState.offer, hpiv, Option.isSome_none,
         Bool.false_eq_true, if_false]
-    obtain ⟨h1, h2⟩ := complete_of_step np n _ hwf ht o g1 hrun _ _ rfl (hstep [] [] [] []) (by simp [COp.measures])
-      (fun h => by simp [COp.measures] at h)
+    obtain ⟨h1, h2⟩ := complete_of_step np n _ hwf ht o g1 hrun _ _ rfl (hstep [] [] [] []) (by simp [cMeasures])
+      (fun h => by simp [cMeasures] at h)
     exact ⟨_, _, h1, h2, fun rest w rd os => ⟨_, _, hstep rest w rd os⟩⟩
 
 /-! ## a whole compile sequence -/
 
 theorem decode_inRange (ne np : Nat) (a : SOp) (d : Dec) (hdec : decode ne np a = some d) :
-    (toCOp a).InRange np (ne + np) := by
+    cInRange np (ne + np) (toCOp a) := by
   have h := hdec
   unfold decode at h
   unfold toCOp
@@ -291,18 +291,18 @@ theorem run_complete (ne np : Nat) (l : List SOp) (hok : ∀ a, a ∈ l → (dec
         obtain ⟨pre, t1, ht1, hg1, hstep⟩ := cop_complete np (ne + np) (toCOp a) hwf hin ht (dd.out F) g1 hr
         rw [← hg1] at h
         obtain ⟨script2, t', new2, ht', hg', hF, hrun⟩ := ih (fun b hb => hok b (List.mem_cons_of_mem _ hb)) ht1 _ h
-        refine ⟨pre ++ script2, t', (if (toCOp a).measures then [dd.out F] else []) ++ new2, ht', hg', ?_,
+        refine ⟨pre ++ script2, t', (if cMeasures (toCOp a) then [dd.out F] else []) ++ new2, ht', hg', ?_,
           fun tail w rd os => ?_⟩
         · -- the streams
           cases hm : dd.mreg with
           | none =>
-            have hmf : (toCOp a).measures = false := by rw [← hms, hm]; rfl
+            have hmf : cMeasures (toCOp a) = false := by rw [← hms, hm]; rfl
             have hpop : dd.pop F = F := by simp [Dec.pop, hm]
             rw [hpop] at hF
             simp only [hmf, Bool.false_eq_true, if_false, List.nil_append, feed, hdd, Option.bind_some, hm]
             exact hF
           | some r =>
-            have hmt : (toCOp a).measures = true := by rw [← hms, hm]; rfl
+            have hmt : cMeasures (toCOp a) = true := by rw [← hms, hm]; rfl
             have hpop : dd.pop F = popReg F r := by simp [Dec.pop, hm]
             have hout : dd.out F = (F r).headD false := by simp [Dec.out, hm]
             have hne : F r ≠ [] := by simpa [Dec.has, hm] using hhas
@@ -311,7 +311,7 @@ theorem run_complete (ne np : Nat) (l : List SOp) (hok : ∀ a, a ∈ l → (dec
               List.headD_cons]
             rw [← hF, hout, pushOut_popReg F r hne]
         · obtain ⟨w1, rd1, hs1⟩ := hstep (script2 ++ tail) w rd os
-          obtain ⟨w2, rd2, hs2⟩ := hrun tail w1 rd1 (os ++ (if (toCOp a).measures then [dd.out F] else []))
+          obtain ⟨w2, rd2, hs2⟩ := hrun tail w1 rd1 (os ++ (if cMeasures (toCOp a) then [dd.out F] else []))
           refine ⟨w2, rd2, ?_⟩
           simp only [List.map_cons, List.foldlM]
           rw [List.append_assoc, hs1]
